@@ -3360,7 +3360,13 @@ def run(ctx) -> Result:
         "`_compute_jacobian`, one discipline object used again after a failing task (same call: one discipline over n inputs with fewer "
         "workers than tasks; next call on the same executor), disciplines working in place on their input array; MDOParallelChain "
         "(execute and linearize, use_deep_copy on/off, threads/processes, n_processes 1..n) whose disciplines scale their input array in "
-        "place while others read it, under forced orders of the bodies; "
+        "place while others read it, under forced orders of the bodies; histories of 2-3 f_gradient(x, step=, x_indices=, **kwargs) / "
+        "compute_optimal_step(x, **kwargs) calls on ONE parallel FirstOrderFD / CenteredDifferences / ComplexStep (processes, n_processes 2-3) whose "
+        "function takes keyword arguments that change between the calls (every quick run: compute_optimal_step with keyword arguments as the first "
+        "call of a fresh approximator, and after an f_gradient with other keyword arguments); histories of 1-3 execute / linearize calls on ONE "
+        "MDOParallelChain of affine disciplines with several inputs and outputs (an output computed by 2-3 disciplines, requested inputs only an "
+        "earlier producer depends on, add_differentiated_inputs/outputs accumulated over the history, compute_all_jacobians on/off, execute=False, "
+        "with/without cache, use_deep_copy on/off, threads/processes, n_processes 1..n); "
         "a case is non-trivial when it has >= 2 tasks; distinct by (configuration, script)"
     )
     res.assumptions = [
@@ -3373,6 +3379,10 @@ def run(ctx) -> Result:
         "disciplines that write into their input are in the quantifier where the API makes the tasks independent: own input arrays per "
         "task (DiscParallelExecution/Linearization: `the inputs must be independent objects`), MDOParallelChain with use_deep_copy=True "
         "or forked workers; use_deep_copy=False with threads and a writing discipline is a probe (compared with the model, never a verdict)",
+        "gradient approximators: the process back-end only (the thread back-end refuses one callable used for several tasks); a call the "
+        "SEQUENTIAL approximator refuses (e.g. a second compute_optimal_step once the step is an array) is outside the quantifier (counted, no verdict)",
+        "parallel chains vs sequential chains: no discipline of the chain reads an output of another one (a parallel chain runs them independently); "
+        "the MDOChain run beside is shown for information, the verdict comes from the closed form (last producer of each output)",
     ]
     rng = ctx.rng
     span = ctx.deadline - ctx.t0
@@ -3457,12 +3467,12 @@ def run(ctx) -> Result:
         fdh += [c13_seq.gen_fdhist_case(rng, method, first="optstep") for _ in range(2 * k)]
         fdh += [c13_seq.gen_fdhist_case(rng, method, first="grad") for _ in range(k)]
     fdh += [c13_seq.gen_fdhist_case(rng, "complex") for _ in range(k)]
-    fdh += [c13_seq.gen_fdhist_case(rng) for _ in range(300 if ctx.thorough else 12)]
+    fdh += [c13_seq.gen_fdhist_case(rng) for _ in range(300 if ctx.thorough else 8)]
     timed("fdhist", c13_seq.check_fdhist_cases, res, fdh, ctx.t0 + span * 0.998)
     mix = [c["case"] for c in corpus if c.get("kind") == "chainmix"]
     for backend in ("thread", "process"):
         mix += [c13_seq.gen_chainmix_case(rng, backend, shape="override") for _ in range(2 * k)]
-    mix += [c13_seq.gen_chainmix_case(rng) for _ in range(600 if ctx.thorough else 40)]
+    mix += [c13_seq.gen_chainmix_case(rng) for _ in range(600 if ctx.thorough else 32)]
     timed("chainmix", c13_seq.check_chainmix_cases, res, mix, ctx.t0 + span * 1.0)
     res.extra["stream_wall_s"] = walls
     lost = res.extra.get("unresolved_timeouts")
